@@ -85,6 +85,8 @@ class P(Play):
 def cases(draw, tier):
     if draw(st.integers(0, 9)) < 2:
         return draw(chain_case(tier))
+    if draw(st.integers(0, 9)) < 1:
+        return draw(nested_move_case(tier))
     provs = draw(st.sampled_from([("machine",), ("machine", "model"), ("machine", "model", "l0")]))
     async_mode = draw(st.sampled_from(["none", "none", "all", "mixed"]))
     spec = draw(gen.machine_spec(max_states=4, max_extra=6, providers=provs, async_mode=async_mode, sends=True, validators=False,
@@ -111,6 +113,32 @@ def cases(draw, tier):
                 out.append(step)
         case["history"] = out
     return case
+
+
+@st.composite
+def nested_move_case(draw, tier):
+    """rtc=False: a callback of a self / internal transition sends an event that moves the machine; when the outer transition
+    goes on it enters its own target again.  With rtc=True the same script must queue the move."""
+    rtc = draw(st.sampled_from([False, False, True]))
+    grp = draw(st.sampled_from(["before", "exit", "on", "enter", "after"]))
+    internal = grp in ("before", "on", "after") and draw(st.integers(0, 3)) == 0
+    name = {"before": "before_loop", "exit": "on_exit_s0", "on": "on_loop", "enter": "on_enter_s0", "after": "after_loop"}[grp]
+    scope = ["event", "loop"] if grp in ("before", "on", "after") else ["state", 0]
+    prov = draw(st.sampled_from(["machine", "model"]))
+    occ = "1" if grp == "enter" else "0"  # (occurrence 0 of an enter callback of the initial state is the activation)
+    cbs = [{"name": name, "group": grp, "scope": scope, "attach": "conv", "prov": prov, "async": False, "yields": 0, "ret": draw(st.sampled_from([None, "r"])),
+            "sends": {occ: [["move", [], {"n": 1}]]}},
+           {"name": "on_enter_s1", "group": "enter", "scope": ["state", 1], "attach": "conv", "prov": "machine", "async": False, "yields": 0, "ret": None, "sends": {}},
+           {"name": "after_transition", "group": "after", "scope": ["generic"], "attach": "conv", "prov": "machine", "async": False, "yields": 0, "ret": None, "sends": {}}]
+    spec = {"states": [{"id": "s0", "initial": True, "final": False}, {"id": "s1", "initial": False, "final": False}],
+            "trans": [{"src": 0, "dst": 0, "events": ["loop"], "internal": internal, "cond": [], "unless": []},
+                      {"src": 0, "dst": 1, "events": ["move"], "internal": False, "cond": [], "unless": []},
+                      {"src": 1, "dst": 0, "events": ["back", "loop"], "internal": False, "cond": [], "unless": []},
+                      {"src": 1, "dst": 1, "events": ["move"], "internal": False, "cond": [], "unless": []}],
+            "cbs": cbs, "guards": [], "events": ["loop", "move", "back"]}
+    hist = [{"val": {}, "ev": e, "args": [], "kw": {}, "style": "send"} for e in draw(st.lists(st.sampled_from(["loop", "loop", "move", "back"]), min_size=1, max_size=5))]
+    hist.insert(0, {"val": {}, "ev": "loop", "args": [], "kw": {}, "style": "send"})
+    return {"spec": spec, "cfg": {"rtc": rtc, "allow": True, "driver": "sync", "activate": True}, "history": hist}
 
 
 @st.composite
